@@ -197,6 +197,11 @@ HypPathsOK(W, t) ==
 (* ---- scope (C04) ---------------------------------------------------------- *)
 InSel(W, x, e) == e[1] = "*" \/ e[1] \in (IF W.default THEN Family(W.T, W.I, x[1]) ELSE W.S)
 AllIn(W, x, lst) == \A e \in Rng(lst) : InSel(W, x, Ent(e))
+\* several hops (closure, relation paths): every hop stays in the family of the
+\* entity it starts from, so the whole traversal stays among the lexicons connected
+\* to the start through "extends"
+InSelHops(W, x, e) == e[1] = "*" \/ e[1] \in (IF W.default THEN Component(W.T, W.I, x[1]) ELSE W.S)
+AllInHops(W, x, lst) == \A e \in Rng(lst) : InSelHops(W, x, Ent(e))
 ScopeOK(W, o) ==
   /\ \A e \in Rng(o.words) \cup Rng(o.senses) \cup Rng(o.synsets) : e[1] \in W.S
   /\ \A t \in Rng(o.W) : AllIn(W, Ent(t), t[3][2]) /\ AllIn(W, Ent(t), t[4][2]) /\ AllIn(W, Ent(t), t[5][2])
@@ -206,7 +211,7 @@ ScopeOK(W, o) ==
        /\ Len(t) >= 7 =>
             /\ \A g \in Rng(t[5][2]) : AllIn(W, Ent(t), g[2])
             /\ \A q \in Rng(t[6][2]) : InSel(W, Ent(t), Ent(q[7])) /\ InSel(W, Ent(t), <<q[4], "-">>)
-            /\ \A a \in Rng(t[7]) : AllIn(W, Ent(t), a[2][2]) /\ AllIn(W, Ent(t), a[3][2]) /\ AllIn(W, Ent(t), a[4][2])
+            /\ \A a \in Rng(t[7]) : AllIn(W, Ent(t), a[2][2]) /\ AllIn(W, Ent(t), a[3][2]) /\ AllInHops(W, Ent(t), a[4][2])
   /\ \A t \in Rng(o.Y) :
        /\ AllIn(W, Ent(t), t[3][2]) /\ AllIn(W, Ent(t), t[4][2])
        /\ \A g \in Rng(t[6][2]) : AllIn(W, Ent(t), g[2])
@@ -214,8 +219,8 @@ ScopeOK(W, o) ==
        \* the lexicon that defines a reported relation is in the selection or,
        \* for borrowed relations, an expand lexicon
        /\ \A q \in Rng(t[7][2]) : InSel(W, Ent(t), <<q[4], "-">>) \/ q[4] \in W.E
-       /\ \A a \in Rng(t[8]) : AllIn(W, Ent(t), a[2][2]) /\ AllIn(W, Ent(t), a[3][2])
-                               /\ \A p \in Rng(a[4][2]) : AllIn(W, Ent(t), p)
+       /\ \A a \in Rng(t[8]) : AllIn(W, Ent(t), a[2][2]) /\ AllInHops(W, Ent(t), a[3][2])
+                               /\ \A p \in Rng(a[4][2]) : AllInHops(W, Ent(t), p)
 
 (* ---- putting it together --------------------------------------------------- *)
 G(r, g) == g \in Rng(r.groups)
